@@ -22,8 +22,8 @@ EXTENDS PolicyManager, Json
 CONSTANT TraceFile
 Trace == ndJsonDeserialize(TraceFile)
 
-VARIABLES l, tid, U, c, K, K0, Kprev, viol, stats, mgr, div
-vars == <<l, tid, U, c, K, K0, Kprev, viol, stats, mgr, div>>
+VARIABLES l, tid, U, c, K, K0, Kprev, viol, stats, mgr, div, lastExact
+vars == <<l, tid, U, c, K, K0, Kprev, viol, stats, mgr, div, lastExact>>
 
 ToSet(s) == {s[i] : i \in 1..Len(s)}
 Has(e, f) == f \in DOMAIN e
@@ -54,7 +54,7 @@ Init ==
     /\ c = [nss |-> Emp, pods |-> Emp, pols |-> Emp]
     /\ K = [sets |-> Emp, chains |-> Emp] /\ K0 = [sets |-> Emp, chains |-> Emp] /\ Kprev = [sets |-> Emp, chains |-> Emp]
     /\ stats = [events |-> 0, traces |-> 0, syncs |-> 0, flows |-> 0, denied |-> 0, exactok |-> 0, conform |-> 0, judged |-> 0]
-    /\ mgr = NoCluster /\ div = {}
+    /\ mgr = NoCluster /\ div = {} /\ lastExact = FALSE
 
 CanonK(k) == [sets |-> NormSets(k.sets),
               chains |-> [n \in DOMAIN k.chains |-> IF OwnedName(n) THEN [bag |-> BagOf(k.chains[n]), seq |-> <<>>] ELSE [bag |-> Emp, seq |-> k.chains[n]]]]
@@ -114,11 +114,13 @@ LineViolations(e, c2, K2) ==
     \* between synchronisations the pod handlers keep the sets and the pod's own chain up to date: after a handled pod event
     \* (all events since the last synchronisation point handled) no derived set lacks a member and the chain of the pod is exact
     \cup V("PodEventKeepsUp",
-           e.ev \in {"UpdatePod", "DeletePod"} /\ e.tracked /\
+           e.ev \in {"UpdatePod", "DeletePod"} /\ e.tracked /\ lastExact /\     \* (nothing to keep up with after a synchronisation that did not converge)
            (\/ \E n \in DOMAIN D.sets : n \notin DOMAIN K2.sets \/ ~(D.sets[n].members \subseteq K2.sets[n].members)
-            \* the address of a deleted pod is in none of the derived sets any more (sets of vanished policies are SyncExact's business)
+            \* the address of a deleted pod has left the sets its labels made it a member of (an address left behind by an
+            \* earlier label change is removed by the next synchronisation only: that is the handlers' design)
             \/ e.ev = "DeletePod" /\ e.obj \in DOMAIN c.pods /\ c.pods[e.obj].ip # "" /\
-               \E n \in (DOMAIN D.sets) \cap (DOMAIN K2.sets) : K2.sets[n].type = "ip" /\ c.pods[e.obj].ip \in K2.sets[n].members
+               \E n \in SetsOfPod(c2, mgr, c.pods[e.obj]) \cap (DOMAIN D.sets) \cap (DOMAIN K2.sets) :
+                   K2.sets[n].type = "ip" /\ c.pods[e.obj].ip \in K2.sets[n].members
             \/ LET pc == PodChain(e.obj) IN
                IF pc \in DOMAIN D.chains THEN pc \notin DOMAIN K2.chains \/ BagOf(K2.chains[pc]) # BagOf(D.chains[pc])
                ELSE pc \in DOMAIN K2.chains),
@@ -155,6 +157,9 @@ Next ==
            K2 == KernelOfLog(e) IN
        /\ c' = c2 /\ K' = K2 /\ Kprev' = K
        /\ mgr' = IF e.ev = "Reset" THEN NoCluster ELSE Expected(e, c2).m
+       /\ lastExact' = IF e.ev = "Reset" THEN FALSE
+                       ELSE IF IsSync(e) THEN SameOwned(K2, Derived(c2, U, AllDevs))
+                       ELSE IF e.ev \in {"UpdatePod", "DeletePod", "AddPod"} /\ e.tracked THEN lastExact ELSE FALSE
        /\ div' = IF Judged(e) /\ CanonK(Expected(e, c2).K) # CanonK(K2)
                    THEN div \cup {[line |-> l, trace |-> tid, ev |-> e.ev, obj |-> IF Has(e, "obj") THEN e.obj ELSE "", why |-> KDiff(Expected(e, c2).K, K2)]}
                  ELSE div
